@@ -46,6 +46,10 @@ def values_eq(m, a, b):
         return values_eq(m, a.cell.v, b.cell.v)
     if isinstance(a, StrRef): a = a.s
     if isinstance(b, StrRef): b = b.s
+    # &str == String, &&str == &str, ...: strip reference levels on either side of a string comparison
+    if isinstance(a, RStr) or isinstance(b, RStr):
+        while isinstance(a, (Ptr, RcV, StrRef)): a = a.s if isinstance(a, StrRef) else a.cell.v
+        while isinstance(b, (Ptr, RcV, StrRef)): b = b.s if isinstance(b, StrRef) else b.cell.v
     if isinstance(a, RStr) and isinstance(b, RStr):
         return str_eq(m, a, b)
     if isinstance(a, Agg) and isinstance(b, Agg):
@@ -1441,6 +1445,9 @@ def m_f64_methods(m, callee, a):
     if key == 'min': return Sym(z3.fpMin(ex, to_z3(y, 'f64')), 'f64')
     if key == 'max': return Sym(z3.fpMax(ex, to_z3(y, 'f64')), 'f64')
     if key == 'mul_add': return Sym(z3.fpFMA(rm, ex, to_z3(y, 'f64'), to_z3(a[2], 'f64')), 'f64')
+    if key == 'fract': return Sym(z3.fpSub(rm, ex, z3.fpRoundToIntegral(z3.RTZ(), ex)), 'f64')
+    if key == 'signum': return Sym(z3.If(z3.fpIsNaN(ex), ex, z3.If(z3.fpIsNegative(ex), z3.FPVal(-1.0, z3.Float64()), z3.FPVal(1.0, z3.Float64()))), 'f64')
+    if key == 'to_bits': return Sym(z3.fpToIEEEBV(ex), 'u64')
     raise Unsupported('f64 method on a symbolic value: ' + callee)
 
 
@@ -1708,3 +1715,11 @@ def m_map_keys(m, c, a): return IterV('own', [Cell(Ptr(Cell(k))) for k, _ in der
 
 @model('HashMap::values')
 def m_map_values(m, c, a): return IterV('own', [Cell(Ptr(cell)) for _, cell in deref(a[0]).e])
+
+
+@model(re.compile(r'^<.* as (Fn|FnMut|FnOnce)>::call(_mut|_once)?$'))
+def m_fn_call(m, callee, a):
+    f = a[0]
+    while isinstance(f, Ptr) and isinstance(f.cell.v, (Closure, FnItem)): f = f.cell.v
+    args = [c.v for c in a[1].fields] if isinstance(a[1], Agg) else ([] if a[1] is UNIT else [a[1]])
+    return call_closure(m, f, args)
